@@ -20,6 +20,11 @@ func forall(lo, hi int, p func(i int) bool) bool {
 func all(x interface{}) bool   { return true }
 func elems(x interface{}) bool { return true }
 func fresh(x interface{}) bool { return true }
+
+// envFailed: some environment operation of this call failed (allocation refused, I/O error);
+// ghostFail() names that flag in modifies clauses
+func envFailed() bool { return false }
+func ghostFail() bool { return true }
 func sameSlice(a, b []byte) bool {
 	if len(a) != len(b) || cap(a) != cap(b) {
 		return false
@@ -103,7 +108,9 @@ func allocSize(addr uintptr, cap_ int) int64 {
 //@   nooverflow
 //@   assumed C.malloc and the unsafe slice-header construction: returns false or a fresh block of exactly size bytes
 //@   requires size >= 0
-//@   modifies arr.Body, arr.Addr, arr.Cap, AllocRL.Size, AllocRL.MaxSize, AllocRL.Count, AllocRL.MaxCount
+//@   modifies arr.Body, arr.Addr, arr.Cap, AllocRL.Size, AllocRL.MaxSize, AllocRL.Count, AllocRL.MaxCount, ghostFail()
+//@   ensures !result0 ==> envFailed()
+//@   ensures result0 ==> envFailed() == old(envFailed())
 //@   ensures result0 ==> arr.Cap == size && len(arr.Body) == size && fresh(arr.Body)
 //@   ensures result0 ==> AllocRL.Count == old(AllocRL.Count)+allocCount(arr.Addr) && AllocRL.Size == old(AllocRL.Size)+allocSize(arr.Addr, size)
 //@   ensures !result0 ==> AllocRL.Count == old(AllocRL.Count) && AllocRL.Size == old(AllocRL.Size) && arr.Addr == 0
@@ -128,7 +135,9 @@ func allocSize(addr uintptr, cap_ int) int64 {
 //@   props C12 C01
 //@   ints both
 //@   nooverflow
-//@   modifies AllocRL.Size, AllocRL.MaxSize, AllocRL.Count, AllocRL.MaxCount
+//@   modifies AllocRL.Size, AllocRL.MaxSize, AllocRL.Count, AllocRL.MaxCount, ghostFail()
+//@   ensures !ok ==> envFailed()
+//@   ensures ok ==> envFailed() == old(envFailed())
 //@   ensures ok ==> len(arrNew.Body) == len(arr.Body)
 //@   ensures ok && arr.Addr == 0 ==> arrNew.Addr == 0 && arrNew.Cap == 0
 //@   ensures ok && arr.Addr != 0 ==> arrNew.Cap == len(arr.Body)
